@@ -10,7 +10,9 @@
           (`_num_value_ports`), not by the store's tracked counters `_num_inps/_num_outs`;
     [F23] the source of a control-flow region is the link of the entry block's control *input*; a block
           lists one input and one output per successor; the exit block's one input is the target;
-    [F11] `Opaque.to_model` qualifies the id with the extension (repaired by the C11 work).
+    [F11] `Opaque.to_model` qualifies the id with the extension (repaired by the C11 work);
+    [F37] `val.Function.to_model` exports the children of the body's root as a dataflow region with its own
+          links (a fresh `ModelExport` of the body HUGR), not the body as a module.
 
   ABSTRACTION (documented, DESIGN.md C12): `_UnionFind` (union by size with path splitting) is
   abstracted to the partition it represents: `classes` merges the classes of the two end points of every
@@ -790,6 +792,14 @@ def exportModuleWith (mkRec : Classes → St → Rec) (s : St) : Except Err Modu
   | .error e => .error e
   | .ok (r, _) => .ok ⟨r⟩
 
+/-- `Function.to_model()` [F37] given the node exporter: `ModelExport(self.body)` +
+    `export_region_dfg(self.body.root)` -/
+def exportBodyWith (mkRec : Classes → St → Rec) (s : St) : Except Err Region :=
+  let cs := classes (Store.linksList s)
+  match exportRegionDfg (mkRec cs s) cs s [] s.root with
+  | .error e => .error e
+  | .ok (r, _) => .ok r
+
 /-- `export_node(node)`.  `fuel` bounds the depth of the hierarchy, `dfuel` is the decoding fuel for the
     body of a function-valued constant (exported by a fresh `ModelExport` of the body HUGR). -/
 def exportNode (dfuel : Nat) : Nat → Classes → St → Names → Nat → Except Err (Option Node × Names)
@@ -809,10 +819,7 @@ def exportNode (dfuel : Nat) : Nat → Classes → St → Names → Nat → Exce
           let body : Json → Except Err Region := fun j =>
             match Serial.loadJson (Serial.opsCodec dfuel) j with
             | .error e => .error (.load e)
-            | .ok s' =>
-              match exportModuleWith (fun cs' s'' => exportNode dfuel fuel cs' s'') s' with
-              | .error e => .error e
-              | .ok m => .ok m.root
+            | .ok s' => exportBodyWith (fun cs' s'' => exportNode dfuel fuel cs' s'') s'
           match exportOp (exportNode dfuel fuel cs s) body cs s outs.2 n d with
           | .error e => .error e
           | .ok (none, st1) => .ok (none, st1)
